@@ -37,9 +37,12 @@ pub fn dist_target(a: &[u8], b: &[u8]) -> Result<(u32, u32), String> {
     let h2 = must("new_from_internals_near_raw", || LongFuzzyHash::new_from_internals_near_raw(3, &[], a))?;
     // targets that held another hash before (its block hashes swapped, so that both the "empty block hash 1,
     // non-empty block hash 2" and the opposite situation precede the initialisation)
-    let mut t1 = must("FuzzyHashCompareTarget::from", || FuzzyHashCompareTarget::from(&h2))?;
+    let bn = oracle::fmt::collapse(b);
+    let p1 = must("new_from_internals_near_raw", || LongFuzzyHash::new_from_internals_near_raw(4, &bn, &[]))?;
+    let p2 = must("new_from_internals_near_raw", || LongFuzzyHash::new_from_internals_near_raw(4, &[], &bn))?;
+    let mut t1 = must("FuzzyHashCompareTarget::from", || FuzzyHashCompareTarget::from(&p1))?;
     must("init_from", || t1.init_from(&h1))?;
-    let mut t2 = must("FuzzyHashCompareTarget::from", || FuzzyHashCompareTarget::from(&h1))?;
+    let mut t2 = must("FuzzyHashCompareTarget::from", || FuzzyHashCompareTarget::from(&p2))?;
     must("init_from", || t2.init_from(&h2))?;
     let d1 = must("block_hash_1().edit_distance", || t1.block_hash_1().edit_distance(b))?;
     let d2 = must("block_hash_2().edit_distance", || t2.block_hash_2().edit_distance(b))?;
